@@ -65,21 +65,21 @@ end Discret.SyncOrder
 namespace Discret.Sync
 open Discret.DailyLog
 
-/-! ### refinement: with five defects repaired the pull of the model is the join -/
+/-! ### refinement: the pull of the model is the join -/
 
 open Discret.SyncOrder in
 /-- **C03 (refinement, one day).** For the model of `synchronise_day` with the switches #18 (ingestion ignores deletion
-    records), room-scoped synchronised deletion, deletion records keyed by row id and #30 (references only for fetched
-    rows) off — every other switch as in the code —, members holding every right: the rows and node deletion records
-    of the puller afterwards are the join of what it held with the source's rows and records of that
+    records), room-scoped synchronised deletion and deletion records keyed by row id off — every other switch as in
+    the code, #30 (references only for fetched rows) included —, members holding every right: the rows and node
+    deletion records of the puller afterwards are the join of what it held with the source's rows and records of that
     `(room, entity, day)`. Any replicas in which no stored row carries a deletion record. -/
 theorem C03_refines_day (d : Defects) (hI : d.ingestIgnoresTombstones = false) (hR : d.syncDeletionRoomScoped = false)
-    (hK : d.deletionBatchKeyedById = false) (hE : d.edgesOnlyForFetchedRows = false)
+    (hK : d.deletionBatchKeyedById = false)
     (rights : Rights) (hA : AllRights rights) (dst src : Replica)
     (hzd : NoZombie dst) (hzs : NoZombie src) (hns : IdsNodup src)
     (hpk : PkFun (fun x => x ∈ dst.ntombs ∨ x ∈ src.ntombs)) (room ent day : Nat) :
     abs (syncDay d rights dst src room ent day).dst = join (abs dst) (abs (slice src room ent day)) :=
-  syncDay_refines hI hR hK hE hA hzd hzs hns hpk room ent day
+  syncDay_refines (f := fun _ => 0) hI hA (Or.inl hR) (Or.inl hK) hzd hzs hns hpk room ent day
 
 open Discret.SyncOrder in
 /-- **C03 (refinement, one pull, any logs).** Same switches off and the whole history compared (room summary switch
@@ -87,28 +87,54 @@ open Discret.SyncOrder in
     not show — whatever the two logs hold. -/
 theorem C03_refines_pull_days (d : Defects) (hI : d.ingestIgnoresTombstones = false)
     (hR : d.syncDeletionRoomScoped = false) (hK : d.deletionBatchKeyedById = false)
-    (hE : d.edgesOnlyForFetchedRows = false) (hS : d.summaryFirstEntityOnly = false)
+    (hS : d.summaryFirstEntityOnly = false)
     (rights : Rights) (hA : AllRights rights) (dst src : Replica)
     (hzd : NoZombie dst) (hzs : NoZombie src) (hns : IdsNodup src)
     (hpk : PkFun (fun x => x ∈ dst.ntombs ∨ x ∈ src.ntombs)) (room : Nat) :
     abs (pull d rights dst src room).dst = joinDays src room (diffDays dst src room) (abs dst) :=
-  pull_refines_days hI hR hK hE hS hA hzd hzs hns hpk room
+  pull_refines_days (f := fun _ => 0) hI hS hA (Or.inl hR) (Or.inl hK) hzd hzs hns hpk room
 
 open Discret.SyncOrder in
 /-- **C03 (refinement, one pull).** `pull d dst src = join dst (src restricted to the room)` on rows and node deletion
-    records, for any model `d` with the five switches off, when both logs are the logs of the stored content (C09:
-    the state after a recomputation with nothing pending), row ids are unique per replica, no stored row carries a
-    deletion record (C11's invariant), a signature stands for the record it signs, and every member holds every
-    right. With `C03_convergence` (a pull being the join): any schedule converges to the join of all replicas. -/
+    records, for any model `d` with four switches off (#18, room-scoped deletion, batches keyed by row id, room
+    summary of one entity), when both logs are the logs of the stored content (C09: the state after a recomputation
+    with nothing pending), row ids are unique per replica, no stored row carries a deletion record (C11's invariant),
+    a signature stands for the record it signs, and every member holds every right. With `C03_convergence` (a pull
+    being the join): any schedule converges to the join of all replicas. -/
 theorem C03_refines_pull (d : Defects) (hI : d.ingestIgnoresTombstones = false)
     (hR : d.syncDeletionRoomScoped = false) (hK : d.deletionBatchKeyedById = false)
-    (hE : d.edgesOnlyForFetchedRows = false) (hS : d.summaryFirstEntityOnly = false)
+    (hS : d.summaryFirstEntityOnly = false)
     (rights : Rights) (hA : AllRights rights) (dst src : Replica)
     (hzd : NoZombie dst) (hzs : NoZombie src) (hnd : IdsNodup dst) (hns : IdsNodup src)
     (hpk : PkFun (fun x => x ∈ dst.ntombs ∨ x ∈ src.ntombs))
     (hld : IsLogOf dst.sigs dst.log) (hls : IsLogOf src.sigs src.log) (hsig : SigsDetermine dst src) (room : Nat) :
     abs (pull d rights dst src room).dst = join (abs dst) (abs (inRoom src room)) :=
-  pull_refines_join hI hR hK hE hS hA hzd hzs hnd hns hpk hld hls hsig room
+  pull_refines_join (f := fun _ => 0) hI hS hA (Or.inl hR) (Or.inl hK) hzd hzs hnd hns hpk hld hls hsig room
+
+open Discret.SyncOrder in
+/-- **C03 (refinement, one pull, deviations of the code as conditions on the data).** The same equation for every
+    model that consults the deletion log (#18 repaired) and compares the whole history, with the room-scoped
+    synchronised deletion and the deletion batches keyed by row id LEFT AS IN THE CODE, for replicas in which rows
+    keep their room (`RoomFn f`: every version and every deletion record of a row name the room `f` gives it) and a
+    source that holds no two deletion records of one row on one day (`DayRecordsDistinct`). What separates the code
+    from this theorem is then: the room summary of one entity (`hS`, finding
+    `room-summary-compares-first-entity-only`), members without the all-rows right (`hA`, #19), and the daily-log
+    findings of C09 (`hld`, `hls`). -/
+theorem C03_refines_pull_code (d : Defects) (hI : d.ingestIgnoresTombstones = false)
+    (hS : d.summaryFirstEntityOnly = false) (rights : Rights) (hA : AllRights rights) (f : Nat → Nat)
+    (dst src : Replica) (hfd : RoomFn f dst) (hfs : RoomFn f src) (hdist : DayRecordsDistinct src)
+    (hzd : NoZombie dst) (hzs : NoZombie src) (hnd : IdsNodup dst) (hns : IdsNodup src)
+    (hpk : PkFun (fun x => x ∈ dst.ntombs ∨ x ∈ src.ntombs))
+    (hld : IsLogOf dst.sigs dst.log) (hls : IsLogOf src.sigs src.log) (hsig : SigsDetermine dst src) (room : Nat) :
+    abs (pull d rights dst src room).dst = join (abs dst) (abs (inRoom src room)) ∧
+    NoZombie (pull d rights dst src room).dst ∧ RoomFn f (pull d rights dst src room).dst :=
+  ⟨pull_refines_join hI hS hA (Or.inr ⟨hfd, hfs⟩) (Or.inr hdist) hzd hzs hnd hns hpk hld hls hsig room,
+   (pull_noZombie_rooms hI rights hzd hfd hfs room).1, (pull_noZombie_rooms hI rights hzd hfd hfs room).2.1⟩
+
+/-- the model of the code with #18 repaired and the whole history compared: the only switch of the model that
+    `C03_refines_pull_code` needs off and the code has on is the room summary -/
+def Defects.repaired18FullHistory : Defects :=
+  { Defects.asImplemented with ingestIgnoresTombstones := false, summaryFirstEntityOnly := false }
 
 open Discret.SyncOrder in
 /-- the intended behaviour is such a model -/
@@ -117,7 +143,7 @@ theorem C03_refines_pull_intended (rights : Rights) (hA : AllRights rights) (dst
     (hpk : PkFun (fun x => x ∈ dst.ntombs ∨ x ∈ src.ntombs))
     (hld : IsLogOf dst.sigs dst.log) (hls : IsLogOf src.sigs src.log) (hsig : SigsDetermine dst src) (room : Nat) :
     abs (pull Defects.none rights dst src room).dst = join (abs dst) (abs (inRoom src room)) :=
-  pull_refines_join rfl rfl rfl rfl rfl hA hzd hzs hnd hns hpk hld hls hsig room
+  pull_refines_join (f := fun _ => 0) rfl rfl hA (Or.inl rfl) (Or.inl rfl) hzd hzs hnd hns hpk hld hls hsig room
 
 /-- a concrete pair of peers (one deletion, one concurrent update, two days): the pull and the join, row by row -/
 def refineWorld : World :=
